@@ -14,36 +14,43 @@ CORE_TRUSTED = ["math/big, crypto/sha256, encoding/asn1, encoding/json (modelled
 
 PROPS = {
     "C01": {
+        "thorough_rounds": 12,
         "suite": "C01", "ref_sample": 2, "trusted": CORE_TRUSTED,
         "assumptions": ["'the reported value was signed' beyond the algebraic facts proved (challenge equation, ranges, index sets, order-shift invariance) rests on the CL03 strong-RSA reduction, cited not mechanised"],
         "partial": ["final step from the verified relation to 'value was signed' is the CL03 unforgeability reduction (not mechanised)"],
     },
     "C02": {
+        "thorough_rounds": 15,
         "suite": "C02", "ref_sample": 2, "trusted": CORE_TRUSTED,
         "assumptions": ["SHA-256 collision resistance is not assumed: session_binding concludes equal hash inputs or an explicit collision"],
         "partial": [],
     },
     "C03": {
+        "thorough_rounds": 20,
         "suite": "C03", "ref_sample": 2, "trusted": CORE_TRUSTED,
         "assumptions": ["equal secret-key responses under one challenge imply equal secrets by the two-transcript extractor of the Schnorr proof (standard; cited)"],
         "partial": ["extractor argument from equal responses to equal secret values is cited, not mechanised"],
     },
     "C04": {
+        "thorough_rounds": 20,
         "suite": "C04", "ref_sample": 3, "trusted": CORE_TRUSTED,
         "assumptions": ["statistical hiding of responses (randomizer Lstatzk bits longer than c*m) is the standard argument, cited"],
         "partial": ["algebraic completeness (every honest proof verifies) is established by correspondence + honest-run oracle over all subsets; the Coq completeness theorem disclosure_complete is stated in DESIGN.md as pending"],
     },
     "C05": {
+        "thorough_rounds": 6,
         "suite": "C05", "ref_sample": 4, "trusted": CORE_TRUSTED + ["big.Int.ProbablyPrime enters the model as an observed oracle value"],
         "assumptions": ["'never verifies against a different block/key' beyond the explicit rejection conditions proved is the strong-RSA argument of CL03 (cited)"],
         "partial": ["unforgeability against different message blocks is the CL03 reduction (not mechanised); primality is relative to the ProbablyPrime oracle"],
     },
     "C06": {
+        "thorough_rounds": 3,
         "suite": "C06", "ref_sample": 4, "trusted": CORE_TRUSTED + ["big.Int.ProbablyPrime and Witness.Verify enter the model as observed oracle values"],
         "assumptions": [],
         "partial": ["'altered message => reject' beyond construct_only_if is the hash / strong-RSA argument (cited)"],
     },
     "C07": {
+        "thorough_rounds": 10,
         "suite": "C07", "ref_sample": 20,
         "trusted": CORE_TRUSTED + ["randomness is an abstract supply handing out each index once; that crypto/rand and the AES-CTR generator do so is C20.cprng_disjoint + the operating system (not modelled)",
                                    "Go channel send/receive in a select are atomic steps (Go memory model)"],
@@ -51,6 +58,7 @@ PROPS = {
         "partial": ["schedules: the theorem covers every interleaving of the model's atomic channel steps; the real scheduler is exercised by stress runs (2..32 goroutines) through the pairwise oracles, the schedule itself is not observable"],
     },
     "C08": {
+        "thorough_rounds": 12,
         "suite": "C08",
         "ref_sample": 4,
         "trusted": CORE_TRUSTED,
@@ -58,43 +66,51 @@ PROPS = {
         "partial": [],
     },
     "C09": {
+        "thorough_rounds": 40,
         "suite": "C09", "ref_sample": 20, "trusted": CORE_TRUSTED,
         "assumptions": ["'a revoked witness can never be made valid again' beyond 'Update never returns success with an invalid witness' is the strong-RSA argument of the accumulator papers (cited)"],
         "partial": [],
     },
     "C10": {
+        "thorough_rounds": 40,
         "suite": "C10", "ref_sample": 20, "trusted": CORE_TRUSTED + ["go-multihash format (modelled for one-byte code/length), fxamacker/cbor, encoding/json"],
         "assumptions": ["ECDSA signature verification of the accumulator is an oracle"],
         "partial": [],
     },
     "C11": {
+        "thorough_rounds": 20,
         "suite": "C11", "ref_sample": 0, "trusted": CORE_TRUSTED,
         "assumptions": ["extraction of (u,e) with u^e = nu from an accepted proof is the two-transcript argument of Camenisch-Lysyanskaya 2002 (cited)"],
         "partial": ["completeness for honest proofs holds only when exactly one hidden response lies below 2^580 (known finding C11:ambiguous-revocation-index)",
                     "soundness extraction cited, not mechanised"],
     },
     "C12": {
+        "thorough_rounds": 20,
         "suite": "C12", "ref_sample": 2, "trusted": CORE_TRUSTED,
         "assumptions": ["a verified range proof establishes the sum-of-squares relation by the two-transcript extractor + CL03 (cited); the theorems take the relation as hypothesis"],
         "partial": ["extraction of the integer relation from an accepted proof is the Sigma-protocol/strong-RSA argument of the package comment (not mechanised)"],
     },
     "C13": {
+        "thorough_rounds": 20,
         "suite": "C13", "ref_sample": 2, "trusted": CORE_TRUSTED + ["SumFourSquares output enters the model as an observed value (checked to square-sum to the input)"],
         "assumptions": [],
         "partial": ["existence of a three-square decomposition for every value 2 mod 4 (Legendre) is checked by computation for the table limit, not proved in general"],
     },
     "C14": {
+        "thorough_rounds": 20,
         "suite": "C14", "ref_sample": 0, "trusted": CORE_TRUSTED + ["fxamacker/cbor + SHA-256 of the keyshare challenge input enters the model as an observed hash value"],
         "assumptions": [],
         "partial": ["acceptance of the merged proof list for secret = user share + server share is established by replay + oracle over all exchanges (algebraic completeness theorem pending, as for C04)"],
     },
     "C18": {
+        "thorough_rounds": 30,
         "suite": "C18", "ref_sample": 40,
         "trusted": ["encoding/xml, encoding/json, encoding/base64, fxamacker/cbor tokenisers (not modelled); the POSIX model of open(2)/fchmod(2) in FilePerm.v (validated on the real file system)"],
         "assumptions": [],
         "partial": ["'a re-read message verifies exactly as the original' is established by re-verification of re-read messages (oracle), the JSON/CBOR tokenisers are not modelled"],
     },
     "C19": {
+        "thorough_rounds": 5,
         "suite": "C19", "ref_sample": 60, "mismatch_is_violation": True,
         "trusted": ["math/big (GCD, Exp, ModInverse, ProbablyPrime, Jacobi used as reference oracle in the harness)"],
         "assumptions": ["ProbablyPrime is an oracle: random primes / safe primes are correct relative to it"],
@@ -103,6 +119,7 @@ PROPS = {
                     "FastMod termination within the iteration budget: finite-domain theorem (p < 130, x < 3000) + correspondence"],
     },
     "C20": {
+        "thorough_rounds": 25,
         "suite": "C20", "ref_sample": 20, "race": True,
         "trusted": ["Go memory model: sync/atomic.AddUint64 and channel operations in a select are atomic steps; the Go race detector (happens-before, reports only races that occur in the runs made)",
                     "crypto/aes (keystream recomputed independently by the harness)"],
@@ -112,6 +129,7 @@ PROPS = {
                     "parallel key generation and key-proof construction are exercised under the race detector by suites C16/C17 in the thorough tier"],
     },
     "C16": {
+        "thorough_rounds": 6,
         "suite": "C16", "ref_sample": 40, "timeout": 3000,
         "trusted": ["big.Int.ProbablyPrime (safe-prime tests) is an oracle, in the model and in the harness",
                     "Go channel semantics of the worker stop protocol (select picks any ready case; close wakes all receivers); runtime.NumGoroutine as the observation of leftover workers",
@@ -121,6 +139,7 @@ PROPS = {
                     "that S with Euler symbol 1 mod p and q is a square mod n = pq needs the CRT recombination of the two roots (crt_spec in C19); stated per prime factor here"],
     },
     "C17": {
+        "thorough_rounds": 1,
         "suite": "C17", "ref_sample": 6, "timeout": 3000,
         "trusted": ["big.Int.ProbablyPrime (group prime, its half, N) enters the model as observed oracle values",
                     "common.ModSqrt / safeprime generation are prover-side helpers used as given (C19)",
@@ -130,6 +149,7 @@ PROPS = {
         "partial": ["'rejects bad moduli whatever responses a prover supplies' is a probabilistic soundness statement of the cited papers; mechanised are the algebraic facts (completeness of every representation / pedersen / range round, determinism of the verifier, binding of modulus and bases through the hash, explicit rejection conditions); cheating provers are explored by the suite"],
     },
     "C15": {
+        "thorough_rounds": 5,
         "suite": "C15",
         "mismatch_is_violation": True,   # the Coq definition is the property's reference
         "trusted": ["crypto/sha256, encoding/asn1, math/big (modelled concretely in Sha256.v/Der.v/Bytes.v; validated differentially)"],
